@@ -63,6 +63,15 @@
                          The former hypotheses `C03_statement` and `C04_full_statement` were FALSE
                          (`C03_statement_refuted`, `C04_full_statement_false`) — the composition was vacuous —
                          and the former typing links `C12_link_*` are replaced by the per-program predicate.
+  * `C01_int_fragment`   END TO END WITH NO HYPOTHESIS LEFT, for the programs that pass two more decidable checks:
+                         `C01_fragChecks` (fun2core's fragment) and `C01_intChecks` (the linearized program is an
+                         integer program — `lit op print ifc exit call subst`, all variables integers — within
+                         range and capacity, and the text of its routine loads): there the x86-64 link is a theorem
+                         too (`C01_x86_int`: Theorem A ∘ Theorem B of pf-x86B, `X86.C06_int_programs_text`; the static
+                         capacity bound `capacity_static`; the loader round trip evaluated on the routine).
+                         `C01_int_from_core`: the same from the Core program on, for any source program.
+                         (19 of the 234 corpus programs with a valid `main` are in this fragment: tag `frag int`
+                         of the `links` driver.)
   * `C01_middle`         UNCONDITIONAL (no semantic hypothesis, no link): for every accepted program with a
                          valid `main` and `C01_linkChecks`, the Core ς-machine on S2 and the positional AxCut
                          machine on S5 have the same runs that end with a result (same trace, same value, both
@@ -137,7 +146,12 @@ def C02_sem_statement : Prop :=
     for the routine's frame; the default `{}` is one (`machOK_default`) — and the heap monitor off,
     `P cfg m` holds for some fuel `m`.
     (The earlier formulation quantified over ALL configurations with that heap size, including ones
-    without a stack, on which every routine faults; and fixed the fuel before the configuration.) -/
+    without a stack, on which every routine faults; and fixed the fuel before the configuration.)
+    NOTE on the witness: a heap size that no sane configuration has (`heapBase + heapBytes > stackLow`
+    for every layout below 2^63) makes the inner statement vacuous.  That is the only way the
+    property can hold for a (mathematically) terminating run whose heap demand exceeds the 64-bit
+    address space; a proof of a link must not use it otherwise — the proved instances (`C01_x86_int`)
+    choose the driver's 32 MiB, for which the default configuration `{}` qualifies. -/
 def C01_onMachines (P : X86.MonCfg → Nat → Prop) : Prop :=
   ∃ heapBytes : Nat, ∀ cfg : X86.MonCfg, cfg.mach.heapBytes = heapBytes → X86.Ref.MachOK cfg.mach →
     cfg.heap = false → ∃ m, P cfg m
@@ -198,14 +212,11 @@ def C01_link_fun2core_sem : Prop :=
     ∀ (args : List Word) (n : Nat) (t : List (Bool × Word)) (v : Word),
       ofFun (Fun.run p' args n) = ⟨t, .done v⟩ → ∃ m, ofCore (Core.run q2 args m) = ⟨t, .done v⟩
 
-/-- x86-64 code generation (C06) on the linearized program of such a compilation, if its names are
-    label-safe: every run of the positional AxCut machine that ends with a result is reproduced by
-    the x86-64 machine on the printed routine, given enough fuel and heap. -/
-def C01_link_x86 : Prop :=
-  ∀ (p : Fun.Program) (p' : Fun.CheckedProgram) (st : Stages),
-    programNamesOk p = true → checkProgram p = .ok p' → validMain p' = true →
-    Fun.noMainCall p' = true → C01_linkChecks p' = true → stages p' = .ok st →
-    LabelSafe st.s5 = true → AxCut.LinTypedProg st.s5 →
+/-- the x86-64 link AT ONE PROGRAM: on the linearized program of the compilation of `p'`, if its names
+    are label-safe, every run of the positional AxCut machine that ends with a result is reproduced
+    by the x86-64 machine on the printed routine, given enough fuel and heap. -/
+def C01_link_x86_at (p' : Fun.CheckedProgram) : Prop :=
+  ∀ (st : Stages), stages p' = .ok st → LabelSafe st.s5 = true → AxCut.LinTypedProg st.s5 →
     ∀ (args : List Word) (hooks : Bool) (body routine : List X86.Code) (nargs : Nat),
       X86.compileX86 st.s5 hooks 0 = .ok (body, nargs) → X86.intoRoutine body nargs = .ok routine →
       ∀ (fuel : Nat) (t : List (Bool × Word)) (v : Word),
@@ -213,6 +224,13 @@ def C01_link_x86 : Prop :=
         C01_onMachines fun cfg fuel' =>
           (X86.run (X86.printProg routine) args fuel' cfg).out = t ∧
           (X86.run (X86.printProg routine) args fuel' cfg).res = .done v
+
+/-- x86-64 code generation (C06): `C01_link_x86_at` for every program of the statement (accepted,
+    valid `main` that is not called, `C01_linkChecks`). -/
+def C01_link_x86 : Prop :=
+  ∀ (p : Fun.Program) (p' : Fun.CheckedProgram),
+    programNamesOk p = true → checkProgram p = .ok p' → validMain p' = true →
+    Fun.noMainCall p' = true → C01_linkChecks p' = true → C01_link_x86_at p'
 
 /-- the forward half of `ObsSame` (clause 1), restricted like the link, implies the link -/
 theorem C01_link_fun2core_sem_of_forward
@@ -234,7 +252,7 @@ theorem C01_link_fun2core_sem_of_C02 (h : C02_sem_statement) : C01_link_fun2core
 
 /-- the unrestricted statement of C06 (x86-64) implies the link -/
 theorem C01_link_x86_of_C06 (h : X86.C06_statement) : C01_link_x86 := by
-  intro p p' st _ _ _ _ _ _ _ hlin args hooks body routine nargs hcomp hinto fuel t v hrun
+  intro p p' _ _ _ _ _ st _ _ hlin args hooks body routine nargs hcomp hinto fuel t v hrun
   obtain ⟨m, hb, hE⟩ := h st.s5 args hooks body routine nargs hlin hcomp hinto fuel v (by rw [hrun])
   refine ⟨hb, fun cfg h1 _ h2 => ⟨m, ?_⟩⟩
   have := hE cfg h1 h2
@@ -656,12 +674,12 @@ def C01_conclusion_core (p' : Fun.CheckedProgram) (st : Stages) : Prop :=
         (X86.run text args m cfg).out = t ∧ (X86.run text args m cfg).res = .done v ∧
         nativeRun text nargs (argvOf args) m cfg = some (renderTrace t, Runtime.exitStatus v.toInt)
 
-/-- **from the Core program on**: ONE hypothesis, the x86-64 link.  For every program of
-    `C01_statement`, every run of the Core ς-machine on S2 that ends with a result is reproduced by
+/-- **from the Core program on**: ONE hypothesis, the x86-64 link at this program.  For every program
+    of `C01_statement`, every run of the Core ς-machine on S2 that ends with a result is reproduced by
     the x86-64 machine on the routine text and by the linked binary (C03, C04, C05, C20: theorems). -/
-theorem C01_from_core (h6 : C01_link_x86) (p : Fun.Program) (p' : Fun.CheckedProgram)
+theorem C01_from_core (p : Fun.Program) (p' : Fun.CheckedProgram) (h6 : C01_link_x86_at p')
     (hn : programNamesOk p = true) (hc : checkProgram p = .ok p') (hv : validMain p' = true)
-    (hmc : Fun.noMainCall p' = true) (hlc : C01_linkChecks p' = true)
+    (hlc : C01_linkChecks p' = true)
     (hls : C01_labelSafe p' = true) :
     ∃ st, C12_Facts p p' st ∧ C01_conclusion_core p' st := by
   obtain ⟨st, F⟩ := C12_facts_of_checks p p' hn hc hv hlc
@@ -694,7 +712,7 @@ theorem C01_from_core (h6 : C01_link_x86) (p : Fun.Program) (p' : Fun.CheckedPro
   have hlen : args.length = nargs := by rw [hnargs]; exact pos_run_done_arity hd5 hD
   refine ⟨hlen, ?_⟩
   -- (E) C06: positional machine on S5 ⟶ x86-64 machine on the routine text
-  refine (h6 p p' st hn hc hv hmc hlc F.ok hsafe F.lin5 args hooks body routine
+  refine (h6 st F.ok hsafe F.lin5 args hooks body routine
     nargs hcomp hinto n5 t v hD).mono ?_
   intro cfg m _ ⟨hout, hres⟩
   refine ⟨hout, hres, ?_⟩
@@ -708,7 +726,7 @@ theorem C01_from_core (h6 : C01_link_x86) (p : Fun.Program) (p' : Fun.CheckedPro
     theorems yet; every other link is a theorem. -/
 theorem C01_composition (h2 : C01_link_fun2core_sem) (h6 : C01_link_x86) : C01_statement := by
   intro p p' hn hc hv hmc hlc hls
-  obtain ⟨st, F, hcore⟩ := C01_from_core h6 p p' hn hc hv hmc hlc hls
+  obtain ⟨st, F, hcore⟩ := C01_from_core p p' (h6 p p' hn hc hv hmc hlc) hn hc hv hlc hls
   refine ⟨⟨st.s5, middleEnd_ok_iff.2 ⟨st, F.ok, rfl⟩⟩, ?_⟩
   intro hooks nargs text hall
   obtain ⟨hnk, hruns⟩ := hcore hooks nargs text hall
@@ -728,11 +746,12 @@ theorem C01_composition (h2 : C01_link_fun2core_sem) (h6 : C01_link_x86) : C01_s
 
 /-- outside the fragment `Sequenced` the source semantics IS the Core machine on S2: there the
     end-to-end conclusion needs the x86-64 link only -/
-theorem C01_composition_unsequenced (h6 : C01_link_x86) (p : Fun.Program) (p' : Fun.CheckedProgram)
+theorem C01_composition_unsequenced (p : Fun.Program) (p' : Fun.CheckedProgram)
+    (h6 : C01_link_x86_at p')
     (hn : programNamesOk p = true) (hc : checkProgram p = .ok p') (hv : validMain p' = true)
-    (hmc : Fun.noMainCall p' = true) (hlc : C01_linkChecks p' = true)
+    (hlc : C01_linkChecks p' = true)
     (hls : C01_labelSafe p' = true) (hseq : Fun.Sequenced p' = false) : C01_conclusion p' := by
-  obtain ⟨st, F, hcore⟩ := C01_from_core h6 p p' hn hc hv hmc hlc hls
+  obtain ⟨st, F, hcore⟩ := C01_from_core p p' h6 hn hc hv hlc hls
   refine ⟨⟨st.s5, middleEnd_ok_iff.2 ⟨st, F.ok, rfl⟩⟩, ?_⟩
   intro hooks nargs text hall
   obtain ⟨hnk, hruns⟩ := hcore hooks nargs text hall
@@ -758,16 +777,13 @@ theorem C01_fun2core_sem_frag (p : Fun.Program) (p' : Fun.CheckedProgram) (q2 : 
 
 /-- **C01_composition_frag**: for the programs of the fragment `C01_fragChecks` (first-order integers,
     data types with `case`, labels / `goto`, calls; no codata) the end-to-end conclusion follows from
-    the x86-64 link ALONE: fun2core (C02, forward), focusing (C03), shrinking (C04), linearization (C05)
+    the x86-64 link at this program ALONE: fun2core (C02, forward), focusing (C03), shrinking (C04), linearization (C05)
     and the runtime (C20) are theorems.  (`noMainCall` is part of `fragOk`.) -/
-theorem C01_composition_frag (h6 : C01_link_x86) (p : Fun.Program) (p' : Fun.CheckedProgram)
+theorem C01_composition_frag (p : Fun.Program) (p' : Fun.CheckedProgram) (h6 : C01_link_x86_at p')
     (hn : programNamesOk p = true) (hc : checkProgram p = .ok p') (hv : validMain p' = true)
     (hlc : C01_linkChecks p' = true) (hls : C01_labelSafe p' = true)
     (hfr : C01_fragChecks p' = true) : C01_conclusion p' := by
-  have hmc : Fun.noMainCall p' = true := by
-    simp only [C01_fragChecks, Bool.and_eq_true] at hfr
-    exact (C02_fragOk_sequenced hfr.1).2.1
-  obtain ⟨st, F, hcore⟩ := C01_from_core h6 p p' hn hc hv hmc hlc hls
+  obtain ⟨st, F, hcore⟩ := C01_from_core p p' h6 hn hc hv hlc hls
   refine ⟨⟨st.s5, middleEnd_ok_iff.2 ⟨st, F.ok, rfl⟩⟩, ?_⟩
   intro hooks nargs text hall
   obtain ⟨hnk, hruns⟩ := hcore hooks nargs text hall
@@ -885,6 +901,131 @@ theorem C01_x86_run_int (p : Fun.Program) (p' : Fun.CheckedProgram) (st : Stages
     (C06Generic.capacity_static st'.s5 hcap d5 (by rw [hd5]; exact List.mem_cons_self ..) args)
     fuel t v hrun cfg hMO hheap hload
 
+/-! ## the integer fragment of the back end: NO hypothesis left -/
+
+theorem C01_intStmtB_sound : ∀ s : AxCut.Stmt, C01_intStmtB s = true → C06Generic.IntStmt s
+  | .lit _ _ next _, h => by
+    simp only [C01_intStmtB] at h; simp only [C06Generic.IntStmt]; exact C01_intStmtB_sound next h
+  | .op _ _ _ _ next _, h => by
+    simp only [C01_intStmtB] at h; simp only [C06Generic.IntStmt]; exact C01_intStmtB_sound next h
+  | .print _ _ next _, h => by
+    simp only [C01_intStmtB] at h; simp only [C06Generic.IntStmt]; exact C01_intStmtB_sound next h
+  | .ifc _ _ _ t e, h => by
+    simp only [C01_intStmtB, Bool.and_eq_true] at h
+    simp only [C06Generic.IntStmt]
+    exact ⟨C01_intStmtB_sound t h.1, C01_intStmtB_sound e h.2⟩
+  | .exit _, _ => by simp [C06Generic.IntStmt]
+  | .call _ _, _ => by simp [C06Generic.IntStmt]
+  | .subst _ next, h => by
+    simp only [C01_intStmtB] at h; simp only [C06Generic.IntStmt]; exact C01_intStmtB_sound next h
+  | .letS _ _ _ _ _ _, h => by simp [C01_intStmtB] at h
+  | .switch _ _ _ _, h => by simp [C01_intStmtB] at h
+  | .create _ _ _ _ _ _ _, h => by simp [C01_intStmtB] at h
+  | .invoke _ _ _ _, h => by simp [C01_intStmtB] at h
+
+theorem C01_intProgB_sound {q : AxCut.Prog} (h : C01_intProgB q = true) : C06Generic.IntProg q := by
+  simp only [C01_intProgB, List.all_eq_true, Bool.and_eq_true, decide_eq_true_eq] at h
+  intro d hd
+  exact ⟨fun b hb => (h d hd).1 b hb, C01_intStmtB_sound d.body (h d hd).2⟩
+
+mutual
+  theorem C01_stmtRangeB_sound : ∀ s : AxCut.Stmt, C01_stmtRangeB s = true →
+      X86.StmtB (fun n => X86.fitsI64 n = true) X86.maxSubstX86 s
+    | .subst pairs next, h => by
+      simp only [C01_stmtRangeB, Bool.and_eq_true, decide_eq_true_eq] at h
+      simp only [X86.StmtB]
+      exact ⟨h.1, C01_stmtRangeB_sound next h.2⟩
+    | .call _ _, _ => by simp [X86.StmtB]
+    | .letS _ _ _ _ next _, h => by
+      simp only [C01_stmtRangeB] at h; simp only [X86.StmtB]; exact C01_stmtRangeB_sound next h
+    | .switch _ _ cl _, h => by
+      simp only [C01_stmtRangeB] at h; simp only [X86.StmtB]; exact C01_clausesRangeB_sound cl h
+    | .create _ _ _ cl next _ _, h => by
+      simp only [C01_stmtRangeB, Bool.and_eq_true] at h
+      simp only [X86.StmtB]
+      exact ⟨C01_clausesRangeB_sound cl h.1, C01_stmtRangeB_sound next h.2⟩
+    | .invoke _ _ _ _, _ => by simp [X86.StmtB]
+    | .lit _ n next _, h => by
+      simp only [C01_stmtRangeB, Bool.and_eq_true] at h
+      simp only [X86.StmtB]
+      exact ⟨h.1, C01_stmtRangeB_sound next h.2⟩
+    | .op _ _ _ _ next _, h => by
+      simp only [C01_stmtRangeB] at h; simp only [X86.StmtB]; exact C01_stmtRangeB_sound next h
+    | .print _ _ next _, h => by
+      simp only [C01_stmtRangeB] at h; simp only [X86.StmtB]; exact C01_stmtRangeB_sound next h
+    | .ifc _ _ _ t e, h => by
+      simp only [C01_stmtRangeB, Bool.and_eq_true] at h
+      simp only [X86.StmtB]
+      exact ⟨C01_stmtRangeB_sound t h.1, C01_stmtRangeB_sound e h.2⟩
+    | .exit _, _ => by simp [X86.StmtB]
+  theorem C01_clausesRangeB_sound : ∀ cl : AxCut.Clauses, C01_clausesRangeB cl = true →
+      X86.ClausesB (fun n => X86.fitsI64 n = true) X86.maxSubstX86 cl
+    | .nil, _ => by simp [X86.ClausesB]
+    | .cons _ _ body rest, h => by
+      simp only [C01_clausesRangeB, Bool.and_eq_true] at h
+      simp only [X86.ClausesB]
+      exact ⟨C01_stmtRangeB_sound body h.1, C01_clausesRangeB_sound rest h.2⟩
+end
+
+theorem C01_progInRangeB_sound {q : AxCut.Prog} (h : C01_progInRangeB q = true) :
+    X86.ProgInRange q := by
+  simp only [C01_progInRangeB, Bool.and_eq_true, List.all_eq_true, decide_eq_true_eq] at h
+  exact ⟨fun d hd => h.1 d hd, fun d hd => C01_stmtRangeB_sound d.body (h.2 d hd)⟩
+
+theorem C01_stripC_eq : C01_stripC = X86.Ref.stripC := by
+  funext c
+  cases c <;> rfl
+
+theorem C01_textLoadsB_sound {routine : List X86.Code} (h : C01_textLoadsB routine = true) :
+    X86.TextLoads routine := by
+  unfold C01_textLoadsB at h
+  split at h
+  · rename_i items hp
+    simp only [decide_eq_true_eq, C01_stripC_eq] at h
+    exact ⟨items, hp, h⟩
+  · cases h
+
+open Scc.Props.C06Generic (IntProg ProgWithinCapacity) in
+/-- **the x86-64 link is a THEOREM on the integer fragment** (`C01_intChecks`, decidable): Theorem A ∘
+    Theorem B of pf-x86B (`X86.C06_int_programs_text`), the static capacity bound, and the loader
+    round trip evaluated on this program's routine. -/
+theorem C01_x86_int (p : Fun.Program) (p' : Fun.CheckedProgram)
+    (hn : programNamesOk p = true) (hc : checkProgram p = .ok p') (hv : validMain p' = true)
+    (hlc : C01_linkChecks p' = true) (hic : C01_intChecks p' = true) : C01_link_x86_at p' := by
+  intro st hok hsafe _ args hooks body routine nargs hcomp hinto fuel t v hrun
+  simp only [C01_intChecks, hok, Bool.and_eq_true] at hic
+  obtain ⟨hcap, ⟨⟨hint, hrange⟩, hl1⟩, hl2⟩ := hic
+  have hload : C01_textLoadsB routine = true := by
+    cases hooks with
+    | true => simpa [C01_routineLoadsB, hcomp, hinto] using hl1
+    | false => simpa [C01_routineLoadsB, hcomp, hinto] using hl2
+  rw [C01_capacity_eq hok] at hcap
+  exact C01_x86_run_int p p' st hn hc hv hlc hok hsafe (C01_intProgB_sound hint)
+    (C01_progInRangeB_sound hrange) args hooks body routine nargs hcomp hinto fuel t v hrun hcap
+    (C01_textLoadsB_sound hload)
+
+/-- **C01_int_fragment — END TO END, NO HYPOTHESIS LEFT** beyond decidable per-program checks: for every
+    accepted program with a valid `main` whose stages pass `C01_linkChecks`, `C01_labelSafe`,
+    `C01_fragChecks` (fun2core's fragment: integers, data, labels, calls; no codata) and
+    `C01_intChecks` (the linearized program is an integer program within range and capacity whose
+    routine text loads), the conclusion of C01 holds: the x86-64 machine on the emitted text and the
+    linked binary reproduce every run of the Fun machine that ends with a result.
+    Every link is a theorem: C15, C02 (`C02_sem_forward_frag`), C03, C04 (`C04_sem`), C05, Theorem A,
+    Theorem B (integer fragment), C14 (labels), C20. -/
+theorem C01_int_fragment (p : Fun.Program) (p' : Fun.CheckedProgram)
+    (hn : programNamesOk p = true) (hc : checkProgram p = .ok p') (hv : validMain p' = true)
+    (hlc : C01_linkChecks p' = true) (hls : C01_labelSafe p' = true)
+    (hfr : C01_fragChecks p' = true) (hic : C01_intChecks p' = true) : C01_conclusion p' :=
+  C01_composition_frag p p' (C01_x86_int p p' hn hc hv hlc hic) hn hc hv hlc hls hfr
+
+/-- … and from the Core program on (any source program, sequenced or not, with codata or not) when
+    the back end is in the integer fragment -/
+theorem C01_int_from_core (p : Fun.Program) (p' : Fun.CheckedProgram)
+    (hn : programNamesOk p = true) (hc : checkProgram p = .ok p') (hv : validMain p' = true)
+    (hlc : C01_linkChecks p' = true) (hls : C01_labelSafe p' = true)
+    (hic : C01_intChecks p' = true) : ∃ st, C12_Facts p p' st ∧ C01_conclusion_core p' st :=
+  C01_from_core p p' (C01_x86_int p p' hn hc hv hlc hic) hn hc hv hlc hls
+
 /-- the exit status of the conclusion is the low byte of the result -/
 theorem C01_exit_status (v : Word) : Runtime.exitStatus v.toInt = (v.toInt % 256).toNat :=
   Runtime.exitStatus_eq _
@@ -953,6 +1094,32 @@ def C01_exAbs (src : String) : Bool :=
 set_option maxRecDepth 100000 in
 theorem C01_example_abs : C01_exAbs C12_exSrc = true := by decide +kernel
 
+/-- an integer program: comparison, `let`, `if`, `println_i64`, two parameters
+    (/verif/gen/corpus/fun2core/s19_main_params.sc) -/
+def C01_exIntSrc : String :=
+  "def main(n: i64, m: i64): i64 { let r: i64 = if n < m { n } else { m }; println_i64(r); if r == 0 { 0 } else { 1 } }"
+
+/-- the hypotheses of `C01_int_fragment` on `C01_exIntSrc`, except the loading of the routine text
+    (the two conjuncts `C01_routineLoadsB` of `C01_intChecks`): `X86.parseText` splits the text with
+    `String.splitOn`, which the kernel cannot evaluate; `#eval` gives `true` for the whole of
+    `C01_intChecks` on this program, and the `links` driver evaluates it on every program of every run
+    (tag `int`). -/
+def C01_exIntChecks (src : String) : Bool :=
+  match frontEnd src with
+  | .ok p p' =>
+    programNamesOk p && validMain p' && C01_linkChecks p' && C01_labelSafe p' &&
+    C01_fragChecks p' && C01_capacity p' &&
+    match stages p' with
+    | .ok st =>
+      C01_intProgB st.s5 && C01_progInRangeB st.s5 &&
+      decide (srcRun p' [3, 5] 100 = ⟨[(true, 3)], .done 1⟩) &&
+      decide (ofPos (AxCut.Pos.run st.s5 [3, 5] 100) = ⟨[(true, 3)], .done 1⟩)
+    | .error _ => false
+  | _ => false
+
+set_option maxRecDepth 100000 in
+theorem C01_example_int : C01_exIntChecks C01_exIntSrc = true := by decide +kernel
+
 /-- `C01_onMachines` is not vacuous: the default machine configuration is sane, its heap monitor off -/
 example : X86.Ref.MachOK ({} : X86.MonCfg).mach ∧ ({} : X86.MonCfg).heap = false :=
   ⟨X86.Ref.machOK_default, rfl⟩
@@ -968,6 +1135,9 @@ example : Runtime.exitStatus (BitVec.ofInt 64 (-1)).toInt = 255 := by decide
 #print axioms C01_composition_frag
 #print axioms C01_x86_run_of_abs
 #print axioms C01_x86_run_int
+#print axioms C01_x86_int
+#print axioms C01_int_fragment
+#print axioms C01_int_from_core
 #print axioms C01_composition_unsequenced
 #print axioms C01_middle
 #print axioms C01_middle_obs
@@ -982,6 +1152,7 @@ example : Runtime.exitStatus (BitVec.ofInt 64 (-1)).toInt = 255 := by decide
 #print axioms compileX86_nargs
 #print axioms C01_example_runs
 #print axioms C01_example_frag
+#print axioms C01_example_int
 #print axioms C01_example_abs
 
 end Scc.Props
